@@ -18,10 +18,12 @@ theorem init_unknown (ty : Ty) :
     Refine.init (Value.unknown ty) = .ok ⟨⟨ty, .unk .unref⟩, [], freshWip ⟨ty, .unk .unref⟩⟩ := by
   simp [Refine.init, Value.unknown, Value.unmark, Payload.unmark1, Payload.isMarked, Value.marks, Payload.marks1]
 
+@[simp] theorem recoverErr_ok {α : Type} (a : α) : recoverErr (Res.ok a) = .ok a := rfl
+
 theorem unmarshal_ext_map (E : Ext) (ty : Ty) (len n : Nat) (stream : List Item)
     (h1 : 1 < len) (h2 : len ≤ maxExtLen) (hd : ty.isDyn = false) :
     unmarshal E (.ext unknownWithRefinementsExt len (.map n) stream) ty =
-      (rfnLoop E ty n stream ⟨⟨ty, .unk .unref⟩, [], freshWip ⟨ty, .unk .unref⟩⟩).bind Refine.newValue := by
+      recoverErr ((rfnLoop E ty n stream ⟨⟨ty, .unk .unref⟩, [], freshWip ⟨ty, .unk .unref⟩⟩).bind Refine.newValue) := by
   have h1' : ¬ len ≤ 1 := by omega
   have h2' : ¬ len > maxExtLen := by omega
   simp [unmarshal, h1', h2', hd, init_unknown, Res.bind]
@@ -255,7 +257,7 @@ theorem unknown_rt_core (E : Ext) (vt : Ty) (r r' : Rfn) (sp : List Item) (hd : 
         (if r.nullness = .f then setNull .f (fw vt) else fw vt) := by
       by_cases hf : r.nullness = .f <;> simp [hf]
     rw [hif, hloop]
-    simpa [Res.bind] using hnv
+    simp [Res.bind, hnv]
 
 
 /-- no type-specific entry: only the nullness travels -/
@@ -542,7 +544,7 @@ theorem collapse_num (n : Tri) (lo hi : Option Bound)
         have hne : (Num.cmp l.v h'.v == 0) = false := by
           have : ¬ Num.cmp l.v h'.v = 0 := by omega
           simpa using this
-        simp [hi2, numEq?, h2 this, hne]
+        simp [hi2, numEq?, EqOracle.eq, numEqPartial, h2 this, hne]
       · simp [hi2]
 
 theorem unknown_rt_num (E : Ext) (n : Tri) (lo hi : Option Bound) (h : rfnOK E .number (.num n lo hi) = true) :
